@@ -23,8 +23,10 @@ package rest
 
 // the timeout middleware of a route group is built from that group's own setting (else the configured server-wide one),
 // never from the engine's maximum over all routes
+// ... and the max-connections middleware is installed only under ITS switch, with the configured cap
 //@ func (ng *engine) buildChainWithNativeMiddlewares
-//@   property C04
+//@   property C04 C05
+//@   call MaxConnsHandler#0: assert ng.conf.Middlewares.MaxConns && arg_n == ng.conf.MaxConns
 //@   call TimeoutHandler#0: assert arg_duration == ite(fr.timeout > 0, fr.timeout, time.Duration(ng.conf.Timeout) * time.Millisecond)
 
 // the connection deadlines are derived from the engine-wide maximum over all routes (ng.timeout): reads 0.8x, writes 1.1x -
@@ -110,3 +112,12 @@ package rest
 //@   call bindFeaturedRoutes#0: assert arg_router == router && arg_recv == ng
 //@   loop 0: invariant !failed
 //@   ensures_local implies(failed, result != nil) && implies(!failed, result == nil)
+
+// C02 the engine (and with it the shedders, which read the package switch once, when they are built) is created only after the
+// configuration's SetUp has run - SetUp is what turns shedding off for the non-production modes
+//@ func NewServer
+//@   property C02
+//@   ghost at entry: su = false
+//@   ghost at after SetUp#0: su = true
+//@   call newEngine#0: assert su
+//@   loop 0: invariant true
